@@ -6,7 +6,8 @@
    are skipped by `step` itself, illegal random outcomes are rejected by `step` itself, so no
    hypothesis on the history is needed.  wf c  :=  0 < width /\ 0 < height. *)
 From Coq Require Import ZArith List Bool.
-From Mesa Require Import Common.ListX Generated.Tables Model.LegacyGrid Proofs.LegacyGridProofs Proofs.LegacyGridSim Proofs.LegacyGridRefine Proofs.LegacyGridBridge.
+From Mesa Require Import Common.ListX Generated.Tables Model.LegacyGrid Proofs.LegacyGridProofs Proofs.LegacyGridSim Proofs.LegacyGridRefine Proofs.LegacyGridBridge Proofs.LegacyGridForms
+  Model.NetGrid Proofs.NetGridProofs.
 Import ListNotations.
 Open Scope Z_scope.
 
@@ -223,10 +224,114 @@ Theorem C08_run_case_is_step : forall k i o,
   nth_error (k_ops k) i = Some o ->
   length (run_case k) = length (k_ops k) /\
   nth_error (run_case k) i =
-    Some (let sr := step (k_cfg k) (run (k_cfg k) init (firstn i (k_ops k))) o in
-          obs_res (snd sr) ++ (-8) :: obs_state (k_cfg k) (k_n k) (fst sr)).
+    Some (let sr := lstep (k_cfg k) (k_layers k) (lrun (k_cfg k) (k_layers k) (init, linit) (firstn i (k_ops k))) o in
+          obs_res (snd sr) ++ (-8) :: obs_state (k_cfg k) (k_n k) (fst (fst sr))
+            ++ (-9) :: obs_layers (k_cfg k) (k_layers k) (snd (fst sr))) /\
+  fst (lrun (k_cfg k) (k_layers k) (init, linit) (firstn i (k_ops k))) = run (k_cfg k) init (firstn i (k_ops k)).
 Proof. exact run_case_is_step. Qed.
 Print Assumptions C08_run_case_is_step.
+
+(* ================================================================== round 3: layers, indexing forms, NetworkGrid *)
+
+(* --- C08_agree for the grid WITH property layers: any history of grid calls and layer writes (set_cell,
+       set_cells), any number of layers *)
+Theorem C08_agree_layered : forall c k ops, wf c -> Agree c (fst (lrun c k (init, linit) ops)).
+Proof. exact agree_layered_history. Qed.
+Print Assumptions C08_agree_layered.
+
+(* --- the layers never interfere: the grid part of the layered run is the layer-free run of the same history
+       (so every theorem above about `run` is about the layered grid), a grid call leaves every layer untouched
+       and returns what it returns without layers, a layer call leaves the grid state literally untouched, and
+       the layers after a history are those of its layer calls alone *)
+Theorem C08_layers_never_interfere : forall c k,
+  (forall ops s L, fst (lrun c k (s, L) ops) = run c s ops) /\
+  (forall s L o, is_layer_op o = false -> lstep c k (s, L) o = ((fst (step c s o), L), snd (step c s o))) /\
+  (forall s L l, fst (fst (lstep c k (s, L) (LayerOp l))) = s) /\
+  (forall ops s L, snd (lrun c k (s, L) ops) = snd (lrun c k (init, L) (layer_ops ops))).
+Proof. exact layers_never_interfere. Qed.
+Print Assumptions C08_layers_never_interfere.
+
+(* --- C18 continue / transparency of reading empties for the stream run_case produces (grid + layers) *)
+Theorem C08_rejected_call_continue_layered : forall c n k s L o s' e rest,
+  wf c -> Agree c s -> step c s o = (s', Err e) ->
+  lrun_obs c n k (s', L) rest = lrun_obs c n k (s, L) rest.
+Proof. exact C18_legacygrid_atomic_continue_layered. Qed.
+Print Assumptions C08_rejected_call_continue_layered.
+
+Theorem C08_empties_read_is_transparent_layered : forall c n k ops rest,
+  wf c -> let sl := lrun c k (init, linit) ops in
+  lrun_obs c n k (fst (lstep c k sl ReadEmpties)) rest = lrun_obs c n k sl rest /\
+  lrun_obs c n k (fst (lstep c k sl ExistsEmpty)) rest = lrun_obs c n k sl rest.
+Proof. exact empties_read_transparent_layered. Qed.
+Print Assumptions C08_empties_read_is_transparent_layered.
+
+(* --- every indexing / iteration form shows the contents of the cells it names *)
+Theorem C08_index_forms : forall c ops,
+  wf c -> let s := run c init ops in
+  (forall a p, In a (grid s p) <-> pos s a = Some p) /\
+  (forall x, 0 <= x < c_w c ->
+     view_col c s x = Some (map (fun y => grid s (x, y)) (zrange 0 (c_h c - 1))) /\
+     view_col c s (x - c_w c) = view_col c s x) /\
+  (forall x, x < - c_w c \/ c_w c <= x -> view_col c s x = None) /\
+  (forall p, out_of_bounds c p = false -> view_index c s p = Some (grid s p)) /\
+  (forall l r, view_list c s l = Some r <-> exists l', map (torus_adj c) l = map Some l' /\ r = map (grid s) l') /\
+  (c_torus c = true -> forall l, view_list c s l = Some (map (fun p => grid s (fst p mod c_w c, snd p mod c_h c)) l)) /\
+  (forall x, 0 <= x < c_w c -> view_slice_y c s x None None = view_col c s x) /\
+  (forall y, 0 <= y < c_h c -> view_slice_x c s None None y = Some (map (fun x => grid s (x, y)) (zrange 0 (c_w c - 1)))) /\
+  view_slice_xy c s None None None None = view_iter c s /\
+  map fst (view_coord_iter c s) = view_iter c s /\
+  (forall lo hi i, In i (pyslice (c_w c) lo hi) -> 0 <= i < c_w c) /\
+  (forall lo hi i, In i (pyslice (c_h c) lo hi) -> 0 <= i < c_h c) /\
+  (forall a l, In a (view_cell_list s l) <-> exists p, In p l /\ pos s a = Some p) /\
+  (forall p, view_form c s (FCellList [p] true) = view_form c s (FCellList [p] false)).
+Proof. exact index_forms_history. Qed.
+Print Assumptions C08_index_forms.
+
+(* --- Python's lo:hi on a list of length n: bounds below 0 count from the end, both clamped to [0, n] *)
+Theorem C08_slice_indices : forall n lo hi i,
+  0 <= n ->
+  (In i (pyslice n lo hi) <-> slice_bound n 0 lo <= i < slice_bound n n hi) /\
+  (In i (pyslice n lo hi) -> 0 <= i < n).
+Proof. exact pyslice_In. Qed.
+Print Assumptions C08_slice_indices.
+
+(* --- NetworkGrid: the same invariant on graph nodes, after every history *)
+Theorem C08_net_agree : forall nodes ops, NAgree nodes (nrun nodes ninit ops).
+Proof. exact net_agree_history. Qed.
+Print Assumptions C08_net_agree.
+
+Theorem C08_net_views : forall nodes ops,
+  NoDup nodes -> let s := nrun nodes ninit ops in
+  (forall a n, npos s a = Some n <-> In a (ncell s n)) /\
+  (forall a n, npos s a = Some n -> In n nodes) /\
+  (forall n, is_nil (ncell s n) = true <-> forall a, npos s a <> Some n) /\
+  (forall a, In a (ncontents s nodes) <-> exists n, npos s a = Some n) /\
+  NoDup (ncontents s nodes) /\
+  (forall a l, In a (ncontents s l) <-> exists n, In n l /\ npos s a = Some n) /\
+  (forall a, In a (flat_map (ncell s) nodes) <-> In a (ncontents s nodes)).
+Proof. exact net_views_history. Qed.
+Print Assumptions C08_net_views.
+
+Theorem C08_net_place_move : forall nodes s a,
+  NAgree nodes s ->
+  (forall n s' r, npos s a = None -> nstep nodes s (NPlace a n) = (s', r) ->
+     (r = Ok [] /\ In n nodes /\ npos s' a = Some n /\ (forall b, b <> a -> npos s' b = npos s b)) \/
+     (s' = s /\ r = Err E_KEY /\ ~ In n nodes)) /\
+  (forall n0 n s' r, npos s a = Some n0 -> nstep nodes s (NMove a n) = (s', r) ->
+     (r = Ok [] /\ In n nodes /\ npos s' a = Some n /\ (forall b, b <> a -> npos s' b = npos s b)) \/
+     (r = Err E_KEY /\ ~ In n nodes /\ npos s' a = None /\ (forall b, b <> a -> npos s' b = npos s b))).
+Proof. exact net_place_move. Qed.
+Print Assumptions C08_net_place_move.
+
+(* --- (C18) NetworkGrid.move_agent towards a node that does not exist is NOT atomic in the current tree:
+       KeyError is raised after the agent has been taken off its node (known finding; fixes/C08-4 proposes the repair).
+       Full statement, refuted:  nstep nodes s o = (s', Err e) -> nobs_state nodes n s' = nobs_state nodes n s *)
+Theorem C08_net_move_unknown_node_atomic_refuted :
+  exists nodes s a n s' e,
+    NAgree nodes s /\ nstep nodes s (NMove a n) = (s', Err e) /\
+    nobs_state nodes 1 s' <> nobs_state nodes 1 s /\ npos s a = Some 0 /\ npos s' a = None.
+Proof. exact net_move_unknown_node_not_atomic. Qed.
+Print Assumptions C08_net_move_unknown_node_atomic_refuted.
 
 (* ================================================================== code-level T1 (round 2)
    The definitions gen_* are regenerated from mesa/space.py on every run (harness/tables/legacy_space_code.py):
@@ -389,8 +494,8 @@ Example C08_example_place_remove :
   snd (step ex_cfg_s s (Place 2 (2, 1))) = Ok [] /\ snd (step ex_cfg_s s (Place 2 (0, 0))) = Err E_CELL_NOT_EMPTY /\
   snd (step ex_cfg_s s (Remove 1)) = Ok [] /\
   nth_error ex_hist 3 = Some (Move 1 (4, 3)) /\
-  nth_error (run_case {| k_cfg := ex_cfg_s; k_n := 2; k_ops := ex_hist |}) 3 =
-    Some [-1; 2; -8; 0; 65537; -7; 1; 1; 0; 0; 1; 2; 0; 0; -7; 1; 65536; 131072; 131073; -7; 0; 1; 1; 0; 1; 1].
+  nth_error (run_case {| k_cfg := ex_cfg_s; k_n := 2; k_layers := 0; k_ops := ex_hist |}) 3 =
+    Some [-1; 2; -8; 0; 65537; -7; 1; 1; 0; 0; 1; 2; 0; 0; -7; 1; 65536; 131072; 131073; -7; 0; 1; 1; 0; 1; 1; -9].
 Proof. vm_compute. repeat split; congruence. Qed.
 
 (* the C08_*_of_source theorems: the translated code runs (vm_compute through the interpreter) *)
@@ -403,3 +508,20 @@ Example C08_example_source :
   gen_torus_adj 3 2 true (-7, 9) = Some (2, 1) /\ gen_torus_adj 3 2 false (3, 0) = None /\
   snd (src_place ex_cfg_s s 3 (1, 1)) = Err E_CELL_NOT_EMPTY /\ snd (src_remove ex_cfg_s s 2) = Ok [].
 Proof. vm_compute. repeat split; congruence. Qed.
+
+(* round 3: layers, forms, NetworkGrid *)
+Example C08_example_round3 :
+  let ops := [Place 1 (0, 1); Place 2 (2, 0); LayerOp (LSet 0 (2, 0) 7); Move 2 (5, 2); LayerOp (LFill 1 4); Remove 1] in
+  let sl := lrun ex_cfg_s 2 (init, linit) ops in
+  pos (fst sl) 2 = Some (2, 0) /\ snd sl 0 (2, 0) = 7 /\ snd sl 0 (0, 0) = 0 /\ snd sl 1 (1, 1) = 4 /\
+  let s := run ex_cfg_m init [Place 1 (0, 1); Place 2 (2, 0); Place 3 (2, 0)] in
+  view_col ex_cfg_m s (-1) = Some [[2; 3]; []] /\ view_col ex_cfg_m s 3 = None /\
+  view_list ex_cfg_m s [(2, 0); (3, 0)] = None /\
+  view_list ex_cfg_s (run ex_cfg_s init [Place 1 (0, 1)]) [(3, 3); (1, 0)] = Some [[1]; []] /\
+  view_slice_y ex_cfg_m s 2 (Some (-1)) None = Some [[]] /\ view_slice_x ex_cfg_m s (Some 1) None 0 = Some [[]; [2; 3]] /\
+  pyslice 5 (Some (-2)) (Some 9) = [3; 4] /\ pyslice 5 (Some 4) (Some 2) = [] /\
+  view_form ex_cfg_m s (FCellList [(2, 0)] true) = Ok [0; 2; 3] /\
+  let t := nrun [3; 0; 7] ninit [NPlace 1 0; NPlace 2 0; NMove 1 7; NPlace 3 9] in
+  NoDup [3; 0; 7] /\ npos t 1 = Some 7 /\ npos t 3 = None /\ ncontents t [3; 0; 7] = [2; 1] /\
+  snd (nstep [3; 0; 7] t (NMove 2 11)) = Err E_KEY.
+Proof. vm_compute. repeat split; try congruence. repeat constructor; cbn; intuition congruence. Qed.
